@@ -21,8 +21,12 @@ Pop == Abs!Pop /\ cap' = IF v # <<>> THEN ShrinkCap(cap, Len(v) - 1) ELSE cap
 Shift == Abs!Shift /\ cap' = IF v # <<>> THEN ShrinkCap(cap, Len(v) - 1) ELSE cap
 SubSlice(st, en) == Abs!SubSlice(st, en) /\ UNCHANGED cap
 Xs == {<<a>> : a \in Vals} \cup {<<a, b>> : a \in Vals, b \in Vals} \cup {<<>>}
+\* (Lo / Hi stand for math.MinInt / math.MaxInt: the adapter substitutes them)
+Lo == -2000000000
+Hi == 2000000000
+Ixs == (-1..Len(v) + 1) \cup {Lo, Hi}
 Next == \/ \E xs \in Xs : AppendV(xs) \/ Prepend(xs)
-        \/ \E i \in -1..Len(v) + 1 : Get(i) \/ Remove(i) \/ \E j \in -1..Len(v) + 1 : SubSlice(i, j)
+        \/ \E i \in Ixs : Get(i) \/ Remove(i) \/ \E j \in Ixs : SubSlice(i, j)
         \/ Pop \/ Shift
 vars == <<v, cap, last>>
 Spec == Init /\ [][Next]_vars
